@@ -241,3 +241,41 @@ fn c17_copy_within_memory() {
     }
     kani::cover!(c == 8);
 }
+
+// ---- EXPERIMENTS (to be removed)
+#[kani::proof]
+#[kani::unwind(70)]
+fn x1() {
+    copy_to_case(32, 3, 6, 4, U256::from(2u64));
+    kani::cover!(true);
+}
+#[kani::proof]
+#[kani::unwind(70)]
+fn x4() {
+    let mut c = 0;
+    while c < 4 {
+        copy_to_case(32, 3, 6, 4, U256::from(c as u64));
+        c += 1;
+    }
+    kani::cover!(true);
+}
+#[kani::proof]
+#[kani::unwind(70)]
+fn x8() {
+    let mut c = 0;
+    while c < 8 {
+        copy_to_case(32, 3, 6, 4, U256::from(c as u64));
+        c += 1;
+    }
+    kani::cover!(true);
+}
+#[kani::proof]
+#[kani::unwind(70)]
+fn x4g() {
+    let mut c = 0;
+    while c < 4 {
+        copy_to_case(32, 28, 8, 4, U256::from(c as u64));
+        c += 1;
+    }
+    kani::cover!(true);
+}
